@@ -987,3 +987,53 @@ def r_clone_overhang(ctx: RuleCtx, col: Collector):
         col.bad("OverhangFilter", sens.rel, line_of(sens.node), "OverhangFilter sweep direction",
                 construct + ": the sensitivity must traverse the layers in the opposite order and push to the same "
                             "supporting layer the response read from")
+
+
+# ------------------------------------------------------------------------------------------------ same point
+@rule("R-SAME-POINT", floor=3)
+def r_same_point(ctx: RuleCtx, col: Collector):
+    """A derivative helper must be evaluated at the point the function helper was evaluated: every view of an input
+    that `_sensitivity` hands to a self-method helper (e.g. `x[self.select]`) must be a view that `_response` handed to
+    a helper as well (same index attributes)."""
+    m = ctx.model
+    for c, sens in module_methods(ctx, "_sensitivity"):
+        resp = m.resolve_method(c, "_response")
+        if resp is None or resp.cls is m.module_base():
+            continue
+
+        def helper_views(f0, pats):
+            an = ctx.alias(f0, c)
+            selfn = m.self_name(f0)
+            out = []
+            for nd, env in an.state_in.items():
+                if nd.ast is None:
+                    continue
+                for x in ast.walk(nd.ast):
+                    if isinstance(x, ast.Call) and isinstance(x.func, ast.Attribute) and isinstance(x.func.value, ast.Name) \
+                            and x.func.value.id == selfn and m.resolve_call(f0, x, concrete=c):
+                        for a in x.args:
+                            v = an.eval(a, dict(env))
+                            base = a
+                            idx = []
+                            while isinstance(base, ast.Subscript):
+                                idx.append(norm(base.slice).replace(selfn + ".", "self."))
+                                base = base.value
+                            bv = an.eval(base, dict(env))
+                            if hits(bv.orig, pats):
+                                out.append((x, tuple(reversed(idx))))
+            return out
+        rv = helper_views(resp, [o_state("in", "*")])
+        sv = helper_views(sens, [o_state("in", "*")])
+        if not sv:
+            continue
+        rset = {idx for _, idx in rv}
+        for call, idx in sv:
+            construct = f"{c.name}: input view {list(idx) or 'whole'} passed to {U(call.func)} in _sensitivity"
+            if idx in rset or not rset:
+                col.ok(c.name, sens.rel, line_of(call), construct, "same view as in _response")
+            else:
+                col.bad(c.name, sens.rel, line_of(call), construct,
+                        f"_sensitivity evaluates the helper {U(call.func)} on the input view {list(idx) or 'the whole input'}, "
+                        f"but _response evaluated its helper(s) on {sorted(map(list, rset))}: the derivative is taken at a "
+                        f"different point (e.g. over all entries instead of the active set)")
+    dedupe(col)
